@@ -49,7 +49,8 @@ FIRM = ('L1Norm', 'L2NormSquared', 'IndicatorBox', 'IndicatorNonnegativity', 'Hu
 SYMBOLIC_SIGMA = ('L2NormSquared', 'IndicatorBox', 'derived/2*L1', 'derived/L1.translated',
                   'Constant', 'IndicatorZero')
 THOROUGH_ONLY = ('IndicatorGroupL1UnitBall', 'IndicatorLpUnitBall/2')     # values oracle with sqrt: minutes
-LOOSE_SLACK = {'IndicatorSimplex': 1e-3, 'IndicatorSimplex/diam2': 1e-3, 'IndicatorSumConstraint': 1e-3}
+LOOSE_SLACK = {'IndicatorSimplex': 1e-3, 'IndicatorSimplex/diam2': 1e-3, 'IndicatorSumConstraint': 1e-3,
+               'IndicatorSumConstraint/value=3': 1e-3}
 NOT_DECIDED = {'KullbackLeiblerCrossEntropy': 'proximal uses the Lambert W function; the first-order identity needs '
                'log(W(z)) = log z - W(z), which is outside the axioms served for the uninterpreted W',
                'KullbackLeiblerCrossEntropyConvexConj': 'same (Lambert W)'}
